@@ -137,3 +137,276 @@ def _is_fresh_expr(repo, fi, v, idx, fresh):
                 return True
         return False
     return False
+
+
+# ---------------------------------------------------------------------------------------------- value flow
+# Reaching definitions for locals and ``self.<attr>`` slots of ONE function, on its CFG.  Rules use it to recognise a
+# value by *role* ("what ends up in self.render, under which path conditions") instead of by the name of the local
+# that happens to carry it: named temporaries, values stored straight into the attribute, helper results that
+# the front-end inlined -- all resolve to the same leaves.
+
+class Def(object):
+    """One definition of a slot: kind 'assign' (value known; ``idx`` = position in an unpacked value or None),
+    or an opaque kind ('aug', 'iter', 'with', 'exc', 'del', 'def', 'entry')."""
+    __slots__ = ('key', 'stmt', 'value', 'idx', 'kind', 'handler')
+
+    def __init__(self, key, stmt, value, idx=None, kind='assign', handler=None):
+        self.key, self.stmt, self.value, self.idx, self.kind, self.handler = key, stmt, value, idx, kind, handler
+
+    def __repr__(self):
+        return '<Def %s %s L%s %s>' % (self.key, self.kind, getattr(self.stmt, 'lineno', '?'), norm(self.value)[:50] if self.value is not None else '')
+
+
+class Leaf(object):
+    """A value that can flow into a slot: the expression, the statement that evaluates it, the path conditions
+    collected along the chain of assignments."""
+    __slots__ = ('value', 'stmt', 'conds', 'opaque')
+
+    def __init__(self, value, stmt, conds, opaque=False):
+        self.value, self.stmt, self.conds, self.opaque = value, stmt, conds, opaque
+
+    def __repr__(self):
+        return '<Leaf %s | %s>' % (norm(self.value)[:60], ['%s%s' % ('' if p else 'not ', norm(t)[:40]) for t, p in self.conds])
+
+
+def slot_key(expr):
+    """'x' for a Name, 'self.a' for an attribute of ``self``; None for anything else."""
+    if isinstance(expr, ast.Name):
+        return expr.id
+    if isinstance(expr, ast.Attribute) and isinstance(expr.value, ast.Name) and expr.value.id == 'self':
+        return 'self.' + expr.attr
+    return None
+
+
+def _transparent(v):
+    """Expressions a local may stand for without changing what is computed: names, attribute chains, constants,
+    getattr with constant name, constant subscripts."""
+    if isinstance(v, (ast.Name, ast.Constant)):
+        return True
+    if isinstance(v, ast.Attribute):
+        return _transparent(v.value)
+    if isinstance(v, ast.Subscript):
+        return _transparent(v.value) and isinstance(v.slice, ast.Constant)
+    if isinstance(v, ast.Call) and isinstance(v.func, ast.Name) and v.func.id == 'getattr' and not v.keywords and \
+            len(v.args) in (2, 3) and isinstance(v.args[1], ast.Constant):
+        return all(_transparent(a) for a in v.args)
+    return False
+
+
+class Flow(object):
+    def __init__(self, fi):
+        from .cfg import CFG
+        self.fi = fi
+        c = getattr(fi, '_cfg', None)
+        if c is None:
+            c = fi._cfg = CFG(fi.node)
+        self.cfg = c
+        self.defs = {}
+        self._conds = {}
+        self._reach = {}
+        self._collect()
+
+    # -- definitions ---------------------------------------------------------------------------------
+    def _add(self, key, stmt, value, idx=None, kind='assign', handler=None):
+        if key is not None:
+            self.defs.setdefault(key, []).append(Def(key, stmt, value, idx, kind, handler))
+
+    def _nodes(self, d):
+        if d.handler is not None:
+            return self.cfg.handler_nodes(d.handler)
+        return self.cfg.nodes_of(d.stmt)
+
+    def _bind_target(self, t, value, st):
+        if isinstance(t, (ast.Tuple, ast.List)):
+            plain = not any(isinstance(e, ast.Starred) for e in t.elts)
+            if plain and isinstance(value, (ast.Tuple, ast.List)) and len(value.elts) == len(t.elts) and \
+                    not any(isinstance(e, ast.Starred) for e in value.elts):
+                for e, v in zip(t.elts, value.elts):
+                    self._bind_target(e, v, st)
+            else:
+                for i, e in enumerate(t.elts):
+                    if isinstance(e, ast.Starred):
+                        e = e.value
+                    if isinstance(e, (ast.Tuple, ast.List)):
+                        for x in _targets(e):
+                            self._add(slot_key(x), st, value, -1)
+                    else:
+                        self._add(slot_key(e), st, value, i if plain else -1)
+        else:
+            self._add(slot_key(t), st, value)
+
+    def _collect(self):
+        for st in stmts_of(self.fi.node):
+            if isinstance(st, ast.Assign):
+                for t in st.targets:
+                    self._bind_target(t, st.value, st)
+            elif isinstance(st, ast.AnnAssign):
+                if st.value is not None:
+                    self._add(slot_key(st.target), st, st.value)
+            elif isinstance(st, ast.AugAssign):
+                self._add(slot_key(st.target), st, None, kind='aug')
+            elif isinstance(st, (ast.For, ast.AsyncFor)):
+                for t in _targets(st.target):
+                    self._add(slot_key(t), st, st.iter, kind='iter')
+            elif isinstance(st, (ast.With, ast.AsyncWith)):
+                for it in st.items:
+                    if it.optional_vars is not None:
+                        for t in _targets(it.optional_vars):
+                            self._add(slot_key(t), st, it.context_expr, kind='with')
+            elif isinstance(st, ast.Try):
+                for h in st.handlers:
+                    if h.name:
+                        self._add(h.name, st, h.type, kind='exc', handler=h)
+            elif isinstance(st, ast.Delete):
+                for t in st.targets:
+                    self._add(slot_key(t), st, None, kind='del')
+            elif isinstance(st, (ast.FunctionDef, ast.AsyncFunctionDef, ast.ClassDef)):
+                self._add(st.name, st, None, kind='def')
+            elif isinstance(st, (ast.Import, ast.ImportFrom)):
+                for a in st.names:
+                    self._add((a.asname or a.name).split('.')[0], st, None, kind='def')
+            if not isinstance(st, (ast.FunctionDef, ast.AsyncFunctionDef, ast.ClassDef)):
+                hosts = [st] if not hasattr(st, 'body') else [getattr(st, f) for f in ('test', 'iter', 'value') if isinstance(getattr(st, f, None), ast.AST)]
+                for h in hosts:
+                    for n in ast.walk(h):
+                        if isinstance(n, ast.NamedExpr):
+                            self._add(slot_key(n.target), st, n.value)
+
+    def _at_nodes(self, at):
+        if at == 'exit':
+            return [self.cfg.exit]
+        return self.cfg.nodes_of(at)
+
+    def reaching(self, key, at):
+        """Definitions of ``key`` that can be the current one when control is at statement ``at`` (or 'exit').
+        A pseudo definition of kind 'entry' stands for the value on entry (parameter / not yet assigned)."""
+        ck = (key, id(at) if at != 'exit' else 'exit')
+        if ck in self._reach:
+            return self._reach[ck]
+        cfg = self.cfg
+        at_nodes = set(self._at_nodes(at))
+        ds = self.defs.get(key, [])
+        def_nodes = set()
+        for d in ds:
+            def_nodes.update(self._nodes(d))
+        avoid = def_nodes - at_nodes
+        out = []
+        for d in ds:
+            srcs = [m for n in self._nodes(d) for m in cfg.succ[n] if (n, m) not in cfg.exc_edges or n in cfg.raise_nodes]
+            # (a definition inside ``at`` itself -- x = f(x) -- reaches only around a cycle: srcs are its successors)
+            if at_nodes & cfg.reach(srcs, avoid=avoid):
+                out.append(d)
+        if at_nodes & cfg.reach([cfg.entry], avoid=avoid):
+            out.append(Def(key, None, None, None, 'entry'))
+        self._reach[ck] = out
+        return out
+
+    def conds(self, stmt):
+        k = id(stmt)
+        if k not in self._conds:
+            self._conds[k] = self.cfg.conds_at_stmt(stmt) if stmt is not None else []
+        return self._conds[k]
+
+    def stmt_of(self, node):
+        cur = node
+        while cur is not None and not isinstance(cur, ast.stmt):
+            cur = self.fi.mod.parents.get(cur)
+        return cur
+
+    # -- resolution ----------------------------------------------------------------------------------
+    def single_def(self, key, at):
+        ds = self.reaching(key, at)
+        if len(ds) == 1 and ds[0].kind == 'assign' and ds[0].idx is None:
+            return ds[0]
+        return None
+
+    def resolve(self, expr, at=None, _depth=0, _seen=()):
+        """Copy of ``expr`` in which every local / self-attribute with exactly one reaching definition of a
+        transparent value (name, attribute chain, getattr, constant) is replaced by that value, recursively.
+        ``at``: the statement evaluating ``expr`` (default: the one containing it)."""
+        import copy
+        if at is None:
+            at = self.stmt_of(expr)
+
+        def rec(e):
+            if isinstance(e, (ast.Lambda, ast.ListComp, ast.SetComp, ast.DictComp, ast.GeneratorExp)):
+                return copy.deepcopy(e)
+            k = slot_key(e)
+            if k is not None and isinstance(getattr(e, 'ctx', None), ast.Load) and _depth < 10 and k not in _seen and at is not None:
+                d = self.single_def(k, at)
+                if d is not None and _transparent(d.value):
+                    return self.resolve(d.value, d.stmt, _depth + 1, _seen + (k,))
+            if not isinstance(e, ast.AST):
+                return e
+            new = e.__class__()
+            for f, v in ast.iter_fields(e):
+                if isinstance(v, list):
+                    setattr(new, f, [rec(x) if isinstance(x, ast.AST) else x for x in v])
+                elif isinstance(v, ast.AST):
+                    setattr(new, f, rec(v))
+                else:
+                    setattr(new, f, v)
+            return ast.copy_location(new, e) if hasattr(e, 'lineno') else new
+        return rec(expr)
+
+    def text(self, expr, at=None):
+        """Canonical text of an expression: resolved, normalised."""
+        return norm(self.resolve(expr, at))
+
+    def cond_texts(self, conds):
+        """[(canonical text, polarity, test)] for path conditions (tests are resolved where they are evaluated)."""
+        return [(self.text(t), p, t) for t, p in conds]
+
+    def leaves(self, expr, at, _conds=(), _depth=0):
+        """Values that can flow into ``expr`` evaluated at ``at`` (statement or 'exit'), following assignments of
+        locals / self-attributes backwards through every reaching definition."""
+        k = slot_key(expr)
+        if k is None or _depth > 10:
+            return [Leaf(expr, at, list(_conds))]
+        ds = self.reaching(k, at)
+        if not ds:
+            return [Leaf(expr, at, list(_conds), opaque=True)]
+        out = []
+        for d in ds:
+            cs = list(_conds) + [c for c in (self.conds(d.stmt) if d.stmt is not None else []) if c not in _conds]
+            if d.kind == 'entry':
+                out.append(Leaf(expr, at, cs))      # the parameter / the value on entry itself
+            elif d.kind != 'assign' or d.idx is not None:
+                out.append(Leaf(expr if d.value is None or d.kind != 'assign' else d.value, d.stmt, cs, opaque=True))
+            else:
+                out.extend(self.leaves(d.value, d.stmt, cs, _depth + 1))
+        return out
+
+    def aliases(self, key):
+        """Texts that denote the same object as slot ``key`` from their assignment on: slots copied from it or it
+        was copied from by a plain ``a = b`` that is the only definition of ``a``."""
+        out = {key}
+        changed = True
+        while changed:
+            changed = False
+            for k, ds in self.defs.items():
+                if len(ds) != 1 or ds[0].kind != 'assign' or ds[0].idx is not None:
+                    continue
+                others = [d for d in ds if d is not ds[0]]
+                v = slot_key(ds[0].value) if ds[0].value is not None else None
+                sibs = set()
+                if isinstance(ds[0].stmt, ast.Assign) and len(ds[0].stmt.targets) > 1:
+                    sibs = set(slot_key(t) for t in ds[0].stmt.targets) - {None}
+                for a, b in [(k, v)] + [(k, s) for s in sibs if s != k]:
+                    if b is None:
+                        continue
+                    if (a in out) != (b in out) and not others:
+                        # the source must not be re-defined after the copy
+                        if any(self._redefined_after(x, ds[0].stmt) for x in (a, b) if x != k):
+                            continue
+                        out.update((a, b))
+                        changed = True
+        return out
+
+    def _redefined_after(self, key, stmt):
+        cfg = self.cfg
+        after = cfg.reach([m for n in cfg.nodes_of(stmt) for m in cfg.succ[n]])
+        for d in self.defs.get(key, []):
+            if d.stmt is not stmt and set(cfg.nodes_of(d.stmt)) & after:
+                return True
+        return False
